@@ -208,7 +208,7 @@ def main():
                 continue
             is_struct = isinstance(target, StructureType)
             kind = rng.choice(["set", "set", "set", "insertcopy", "del", "copy", "select", "select", "attr", "data", "replace",
-                               "move", "move"])
+                               "move", "move", "badset"])
             if force is not None:
                 kind, force = "copy", None
             before = [plain(x) for x in roots]
@@ -237,6 +237,24 @@ def main():
                         target[name] = obj
                     except Exception:
                         pass
+                elif kind == "badset":
+                    # a set under a key that is not the item's name is refused, and a refused operation changes nothing
+                    if not is_struct:
+                        continue
+                    key = unq(rng.choice(list(target._dict))) if target._dict and rng.random() < 0.8 else rng.choice(NAMES)
+                    other = BaseType("other") if rng.random() < 0.5 else StructureType("other")
+                    try:
+                        target[key] = other
+                        direct.append({"law": "a set under a key that differs from the item's name is refused", "key": key})
+                    except KeyError:
+                        pass
+                    after = [plain(x) for x in roots]
+                    if after != before and len(direct) < 20:
+                        direct.append({"law": "a refused set leaves every tree as it was", "handle": h, "path": path, "key": key,
+                                       "before": repr(before[h])[:400], "after": repr(after[h])[:400],
+                                       "history_so_far": [hh.split(", [")[0] for hh in hist]})
+                    opcount[kind] = opcount.get(kind, 0) + 1
+                    continue
                 elif kind == "insertcopy":
                     if not is_struct:
                         continue
